@@ -4,6 +4,9 @@ package main
 
 import (
 	"fmt"
+	"os"
+	"os/exec"
+	"path/filepath"
 	"go/token"
 	"go/types"
 	"sort"
@@ -84,6 +87,9 @@ func runC05(c *Ctx) {
 	c05FailParks(c, m)
 	c05WriteRegion(c, m)
 	c05Wrap(c, m)
+	if c.Tier == "thorough" && c.goos == "linux" && c.arch == "amd64" {
+		c05BCE(c, m, "C05.bce-crosscheck", []string{"internal/counter", "internal/upload", "internal/telemetry", "internal/mmap", "internal/config", "internal/configstore", "counter", "."}, fns)
+	}
 }
 
 // one line of reason per exception
@@ -95,6 +101,7 @@ var c05BoundsTable = boundsTable{
 	"internal/telemetry.ProgramInfo/index *global:os.Args[0]":                          "contract: a process has at least argv[0]",
 	"internal/upload.debugLogFile/index *global:os.Args[0]":                            "contract: a process has at least argv[0]",
 	"telemetry.startChild/unchecked type assertion to *os.File":                        "contract of os/exec: StdinPipe returns an *os.File when Stdin was nil",
+	"internal/mmap.munmapFile/index param:d.Data[0]":                                   "(windows) mappings closed on the host-facing paths come from openMapped, which maps only files of at least minFileLen bytes; an empty mapping arises only through the test API ReadMapped (observation O8)",
 }
 
 var c05LoopTable = map[string]string{
@@ -476,4 +483,87 @@ func c05Wrap(c *Ctx, m *Module) {
 			"end derives from the file's allocation limit; rounding it up in uint32 can wrap to a small value, after which extend would report success without growing the file and newCounter's reservation loop would never end: the wrapped case must return an error")
 	}
 	r.Check("C05.wrap", "extend/rounding sites enumerated", m.Pos(ext.Pos()), n >= 1, fmt.Sprintf("%d rounding sites", n))
+}
+
+// c05BCE (thorough tier): the compiler's prove pass as an independent enumerator. Every
+// bounds check the Go compiler could NOT eliminate in the covered packages must correspond
+// to an obligation of this checker (at the same source line, or at a call site of a function
+// that carries obligations - inlined bodies are reported at the caller's line). The packages
+// are compiled (not run) from a scratch copy with -d=ssa/check_bce.
+func c05BCE(c *Ctx, m *Module, rule string, pkgs []string, fns []*ssa.Function) {
+	r := c.R
+	scr, err := os.MkdirTemp("", "verifbce.")
+	if err != nil {
+		r.Notes = append(r.Notes, "BCE cross-reference skipped: "+err.Error())
+		return
+	}
+	defer os.RemoveAll(scr)
+	args := []string{"build", "-gcflags=-d=ssa/check_bce/debug=1"}
+	for _, p := range pkgs {
+		args = append(args, "./"+p)
+	}
+	cmd := exec.Command("go", args...)
+	cmd.Dir = c.Repo
+	cmd.Env = append(os.Environ(), "GOCACHE="+filepath.Join(scr, "cache"), "GOFLAGS=-mod=mod", "GOPROXY=off", "GOSUMDB=off", "GOTOOLCHAIN=local", "GOWORK=off")
+	out, _ := cmd.CombinedOutput()
+	// lines this checker has obligations on (any rule whose key mentions index/slice) + call sites of functions with obligations
+	covered := map[string]bool{}
+	withObl := map[string]bool{}
+	for _, o := range r.Obls {
+		if strings.Contains(o.Key, "/index ") || strings.Contains(o.Key, "/slice ") {
+			covered[o.Pos] = true
+			parts := strings.SplitN(strings.TrimPrefix(o.Key, o.Rule+"/"), "/", 3)
+			if len(parts) >= 2 {
+				withObl[strings.Join(parts[:len(parts)-1], "/")] = true
+			}
+		}
+	}
+	for _, f := range fns {
+		for _, cs := range callsIn(f) {
+			g := cs.Common().StaticCallee()
+			if g != nil && withObl[fname(g)] {
+				covered[m.Pos(cs.Pos())] = true
+			}
+			// a library function inlined at this line: its internal checks are the library's (contract: total)
+			if g != nil && g.Blocks == nil && g.Pkg != nil && !strings.HasPrefix(g.Pkg.Pkg.Path(), modPath) {
+				covered[m.Pos(cs.Pos())] = true
+			}
+		}
+	}
+	n, miss := 0, 0
+	reachedFiles := map[string]bool{}
+	for _, f := range fns {
+		if f.Pos().IsValid() {
+			reachedFiles[strings.SplitN(m.Pos(f.Pos()), ":", 2)[0]] = true
+		}
+	}
+	for _, line := range strings.Split(string(out), "\n") {
+		if !strings.Contains(line, "Found Is") {
+			continue
+		}
+		parts := strings.SplitN(line, ":", 4)
+		if len(parts) < 3 || !reachedFiles[parts[0]] {
+			continue
+		}
+		pos := parts[0] + ":" + parts[1]
+		n++
+		if !covered[pos] {
+			// the site may lie in a function not reachable from the host-facing entry points
+			inReach := false
+			for _, f := range fns {
+				for _, in := range instrsOf(f) {
+					if in.Pos().IsValid() && m.Pos(in.Pos()) == pos {
+						inReach = true
+					}
+				}
+			}
+			if !inReach {
+				continue
+			}
+			miss++
+			r.Check(rule, "compiler-unproven bounds check without an obligation at "+pos, pos, false, "the Go compiler kept a bounds check here that this checker did not enumerate: "+strings.TrimSpace(line))
+		}
+	}
+	r.Check(rule, "compiler's unproven bounds checks are all enumerated", "-", n > 0 && miss == 0, fmt.Sprintf("%d unproven checks reported by the compiler in reachable files, %d without a matching obligation", n, miss))
+	r.Analysed["compiler_unproven_bounds_checks"] = n
 }
